@@ -208,7 +208,8 @@ Inductive hstep :=
 | HOut (k : pkt)
 | HMarkRouter (remote st : N)
 | HMarkConn (dst proto port st : N)
-| HAge (long : bool).
+| HAge (long : bool)
+| HPing (remote : N).
 
 Definition hstep_run (c : cfg) (pol : policy) (handle : bool) (api : N) (ch : cache) (s : hstep) : option verdict * cache :=
   match s with
@@ -217,4 +218,6 @@ Definition hstep_run (c : cfg) (pol : policy) (handle : bool) (api : N) (ch : ca
   | HMarkRouter r st => (None, mark_router ch r st)
   | HMarkConn d p o st => (None, mark_conn ch d p o st)
   | HAge long => (None, age_cache ch long)
+  | HPing _ => (None, ch)        (* an authentic ping of any other kind (pong, hello, announce) from [remote]:
+                                    connection states are not touched *)
   end.
